@@ -125,8 +125,13 @@ def run_forever_paths(ctx, reconnect=0, prior_errored=False, scenario_filter=Non
         read_cb, check_cb = args[-2], args[-1]
         ch = run.choose(4, I.locof(node), "loop: one frame then stops / check raises timeout / KeyboardInterrupt / app.close() from a callback")
         if ch == 0:
-            I.call(run, read_cb, [], {}, node)
-            return NONE
+            # the real loop keeps reading while read() is truthy and keep_running holds: up to two frames here
+            from ..absint import CutoffSig
+            for _ in range(2):
+                r = I.call(run, read_cb, [], {}, node)
+                if not I.truth(run, r, node):
+                    return NONE
+            raise CutoffSig("dispatcher stub: more than two frames")
         if ch == 1:
             raise_exc(I, run, TIMEOUT_EXC, node)
         if ch == 2:
@@ -156,7 +161,27 @@ def run_forever_paths(ctx, reconnect=0, prior_errored=False, scenario_filter=Non
 
 
 def _scenario(o):
-    d = {x.text.split(":")[0]: x.choice for x in o.decisions if x.text.startswith(("connect:", "loop:", "frame:"))}
+    """Decisions of the run in order: {'connect': [...], 'loop': [...], 'frame': [...]}; .get(k) gives the *first* loop /
+    connect choice and the *last* frame of the first connection."""
+    seq = {"connect": [], "loop": [], "frame": []}
+    conn_idx = 0
+    frames_first = []
+    for x in o.decisions:
+        for k in seq:
+            if x.text.startswith(k + ":"):
+                seq[k].append(x.choice)
+                if k == "frame" and len(seq["connect"]) == 1:
+                    frames_first.append(x.choice)
+
+    class S(dict):
+        pass
+
+    d = S()
+    d["connect"] = seq["connect"][0] if seq["connect"] else None
+    d["loop"] = seq["loop"][0] if seq["loop"] else None
+    d["frame"] = frames_first[-1] if frames_first else None
+    d.seq = seq
+    d.frames_first = frames_first
     return d
 
 
@@ -166,8 +191,10 @@ def r3(ctx):
     I, outs = run_forever_paths(ctx, reconnect=0)
     seen = set()
     for o in outs:
+        if o.kind == "cutoff":
+            continue  # the stubbed read loop is cut after two delivered frames
         sc = _scenario(o)
-        label = ",".join(f"{k}={v}" for k, v in sorted(sc.items()))
+        label = ",".join(f"{k}={v}" for k, v in sorted(sc.seq.items()))
         seen.add(label)
         calls = [e.name for e in user_calls(o)]
         f = _app_fields(o)
